@@ -16,6 +16,7 @@ import (
 	"math/rand"
 	"net"
 	"net/http"
+	"strconv"
 	"strings"
 	"sync"
 	"sync/atomic"
@@ -108,6 +109,9 @@ func serveHTTPBackend(conn net.Conn, ident string, lg *ledger) {
 			_, _ = io.Copy(io.Discard, br)
 			return
 		}
+		if d, _ := strconv.Atoi(req.Header.Get("X-Delay-Ms")); d > 0 {
+			time.Sleep(time.Duration(d) * time.Millisecond)
+		}
 		body := ident + "\n"
 		_, err = fmt.Fprintf(conn, "HTTP/1.1 200 OK\r\nX-Ident: %s\r\nX-Echo-Tag: %s\r\nContent-Type: text/plain\r\nContent-Length: %d\r\n\r\n%s",
 			ident, tag, len(body), body)
@@ -184,6 +188,9 @@ type request struct {
 	User   string
 	Conn   int // http: index of the keep-alive connection to use
 	Split  int // >0: write the first bytes in two pieces, split at this offset
+	// DelayMs > 0 asks the backend to wait before it answers (request in flight); Tag fixes the request tag.
+	DelayMs int
+	Tag     string
 }
 
 func (r request) sig() string {
@@ -198,6 +205,7 @@ type answer struct {
 	Tag     string
 	Err     string // transport anomaly: neither a backend answer nor a proper refusal
 	Reused  bool   // sent on a connection that had carried earlier requests
+	Dropped bool   // TLS: closed without alert and without identity (a refusal, but also what a connection routed to a proxy that closes meanwhile looks like)
 }
 
 func (a answer) String() string {
@@ -295,6 +303,9 @@ func (ua *userAgent) httpBytes(r request, tag string) []byte {
 			fmt.Fprintf(&b, "Authorization: %s\r\n", basic(r.User))
 		}
 	}
+	if r.DelayMs > 0 {
+		fmt.Fprintf(&b, "X-Delay-Ms: %d\r\n", r.DelayMs)
+	}
 	fmt.Fprintf(&b, "X-Tag: %s\r\nUser-Agent: c06\r\n\r\n", tag)
 	return b.Bytes()
 }
@@ -313,6 +324,9 @@ func (ua *userAgent) doHTTP(r request) answer {
 	var last answer
 	for attempt := 0; attempt < 2; attempt++ {
 		tag := newTag(ua.caseIdx)
+		if r.Tag != "" && attempt == 0 {
+			tag = r.Tag
+		}
 		reused := k.c != nil
 		if k.c == nil {
 			c, err := net.DialTimeout("tcp", ua.httpAddr, ioTimeout)
@@ -433,7 +447,7 @@ func (ua *userAgent) doTLS(r request) answer {
 	first, err := br.Peek(1)
 	if err != nil {
 		if errors.Is(err, io.EOF) || isReset(err) {
-			return answer{Refused: true, Tag: tag}
+			return answer{Refused: true, Dropped: true, Tag: tag}
 		}
 		return answer{Err: "tls read: " + err.Error(), Tag: tag}
 	}
@@ -485,6 +499,7 @@ func (ua *userAgent) doMux(r request) answer {
 			a.Err = "tunnel write: " + err.Error()
 			return a
 		}
+		_ = c.SetDeadline(time.Now().Add(10 * time.Second)) // a tunnel dropped at the hand-over is not answered at all
 		var id []byte
 		for {
 			b, err := br.ReadByte()
